@@ -15,6 +15,9 @@ import (
 	"encoding/json"
 	"fmt"
 	"os"
+	"runtime"
+	"sync"
+	"sync/atomic"
 
 	"go.opentelemetry.io/collector/component"
 	"go.opentelemetry.io/collector/confmap"
@@ -116,32 +119,58 @@ func main() {
 		os.Exit(1)
 	}
 	defer f.Close()
+	var lines [][]byte
+	sc := bufio.NewScanner(f)
+	sc.Buffer(make([]byte, 1<<20), 1<<26)
+	for sc.Scan() {
+		if len(sc.Bytes()) > 0 {
+			lines = append(lines, append([]byte(nil), sc.Bytes()...))
+		}
+	}
+	if err := sc.Err(); err != nil {
+		fmt.Fprintln(os.Stderr, err)
+		os.Exit(1)
+	}
+	results := make([][]byte, len(lines))
+	workers := runtime.NumCPU()
+	if workers > 8 {
+		workers = 8
+	}
+	var wg sync.WaitGroup
+	var bad atomic.Int64
+	ch := make(chan int)
+	for k := 0; k < workers; k++ {
+		wg.Add(1)
+		go func() {
+			defer wg.Done()
+			for i := range ch {
+				var in input
+				if err := json.Unmarshal(lines[i], &in); err != nil {
+					fmt.Fprintln(os.Stderr, "line", i, err)
+					bad.Add(1)
+					continue
+				}
+				results[i], _ = json.Marshal(load(i, in))
+			}
+		}()
+	}
+	for i := range lines {
+		ch <- i
+	}
+	close(ch)
+	wg.Wait()
+	if bad.Load() > 0 {
+		os.Exit(1)
+	}
 	o, err := os.Create(os.Args[2])
 	if err != nil {
 		fmt.Fprintln(os.Stderr, err)
 		os.Exit(1)
 	}
 	bw := bufio.NewWriter(o)
-	sc := bufio.NewScanner(f)
-	sc.Buffer(make([]byte, 1<<20), 1<<26)
-	i := 0
-	for sc.Scan() {
-		if len(sc.Bytes()) == 0 {
-			continue
-		}
-		var in input
-		if err := json.Unmarshal(sc.Bytes(), &in); err != nil {
-			fmt.Fprintln(os.Stderr, "line", i, err)
-			os.Exit(1)
-		}
-		b, _ := json.Marshal(load(i, in))
+	for _, b := range results {
 		bw.Write(b)
 		bw.WriteByte('\n')
-		i++
-	}
-	if err := sc.Err(); err != nil {
-		fmt.Fprintln(os.Stderr, err)
-		os.Exit(1)
 	}
 	if err := bw.Flush(); err != nil {
 		fmt.Fprintln(os.Stderr, err)
